@@ -290,7 +290,7 @@ func TestRandom(t *testing.T) {
 			nfiles = 2
 		}
 		lv := level{maxFds: 3, maxLinks: 3}
-		total += runTrace(t, tr, i, allocName(i), nfiles, func(w *world) {
+		total += runTrace(t, tr, i, allocName(i), i%4 >= 2, nfiles, func(w *world) {
 			for j := 0; j < steps; j++ {
 				en := w.enabled(lv, nfiles, rng)
 				if len(en) == 0 {
@@ -316,13 +316,15 @@ func TestEnumerate(t *testing.T) {
 	// run replays the choices; returns the number of moves enabled after them.
 	run := func(choices []int, log *common.Trace, alloc string) int {
 		width := 0
-		runTrace(t, log, leaves, alloc, 1, func(w *world) {
+		runTrace(t, log, leaves, alloc, leaves%4 >= 2, 1, func(w *world) {
 			// The file always exists: creation with/without a
 			// writable descriptor is the first choice.
 			for _, c := range choices {
 				en := w.enabled(lv, 1, rng)
 				if c >= len(en) {
-					panic("enumeration is not deterministic")
+					// the real code did not behave the same way
+					// twice; what was logged so far stands
+					break
 				}
 				w.apply(en[c])
 			}
@@ -360,66 +362,136 @@ type sc struct {
 	w *world
 }
 
+// fd finds a free descriptor with the given mask. If the real code went
+// off the script (a call that should have returned did not, or panicked)
+// there may be none: the step is then skipped, the trace so far stands.
 func (s sc) fd(f int, mask string) *fdCtl {
 	for _, fd := range s.w.files[f].fds {
 		if fd.mask == mask && !fd.busy {
 			return fd
 		}
 	}
-	panic(fmt.Sprintf("scenario: no free descriptor %q on f%d", mask, f+1))
+	return nil
 }
 
-func (s sc) last() *opCtl {
-	return s.w.lastOp
-}
+func (s sc) exists(f int) bool { return s.w.files[f].leaf != nil }
 
 func (s sc) create(f int, mask string, size int) {
 	s.w.apply(step{kind: "create", f: f, mask: mask, n: size})
 }
+
 func (s sc) open(f int, mask string, trunc bool) {
-	s.w.apply(step{kind: "open", f: f, mask: mask, trunc: trunc})
+	if s.exists(f) {
+		s.w.apply(step{kind: "open", f: f, mask: mask, trunc: trunc})
+	}
 }
+
 func (s sc) close(f int, mask string) {
-	s.w.apply(step{kind: "close", f: f, mask: mask, fd: s.fd(f, mask)})
+	if fd := s.fd(f, mask); fd != nil {
+		s.w.apply(step{kind: "close", f: f, mask: mask, fd: fd})
+	}
 }
-func (s sc) link(f int)   { s.w.apply(step{kind: "link", f: f}) }
-func (s sc) unlink(f int) { s.w.apply(step{kind: "unlink", f: f}) }
+
+func (s sc) link(f int) {
+	if s.exists(f) {
+		s.w.apply(step{kind: "link", f: f})
+	}
+}
+
+func (s sc) unlink(f int) {
+	if s.exists(f) && s.w.files[f].links > 0 {
+		s.w.apply(step{kind: "unlink", f: f})
+	}
+}
+
 func (s sc) write(f int, mask string, off int, data ...byte) {
-	s.w.apply(step{kind: "write", f: f, off: off, data: data, fd: s.fd(f, mask)})
+	if fd := s.fd(f, mask); fd != nil {
+		s.w.apply(step{kind: "write", f: f, off: off, data: data, fd: fd})
+	}
 }
+
 func (s sc) read(f int, mask string, off, n int) {
-	s.w.apply(step{kind: "read", f: f, off: off, n: n, fd: s.fd(f, mask)})
+	if fd := s.fd(f, mask); fd != nil {
+		s.w.apply(step{kind: "read", f: f, off: off, n: n, fd: fd})
+	}
 }
-func (s sc) setsize(f, n int, pin bool) { s.w.apply(step{kind: "setsize", f: f, n: n, pin: pin}) }
+
+func (s sc) setsize(f, n int, pin bool) {
+	if s.exists(f) {
+		s.w.apply(step{kind: "setsize", f: f, n: n, pin: pin})
+	}
+}
+
 func (s sc) allocate(f, off, n int, pin bool) {
-	s.w.apply(step{kind: "allocate", f: f, off: off, n: n, pin: pin})
+	if s.exists(f) {
+		s.w.apply(step{kind: "allocate", f: f, off: off, n: n, pin: pin})
+	}
 }
-func (s sc) getattr(f int) { s.w.apply(step{kind: "getattr", f: f}) }
-func (s sc) stat(f int)    { s.w.apply(step{kind: "stat", f: f}) }
+
+func (s sc) getattr(f int) {
+	if s.exists(f) {
+		s.w.apply(step{kind: "getattr", f: f})
+	}
+}
+
+func (s sc) stat(f int) {
+	if s.exists(f) {
+		s.w.apply(step{kind: "stat", f: f})
+	}
+}
+
 func (s sc) upload(f int, mode string, gated bool) *opCtl {
+	if !s.exists(f) {
+		return nil
+	}
 	s.w.apply(step{kind: "upload", f: f, mode: mode, gated: gated})
 	return s.w.lastOp
 }
-func (s sc) fopen(f int) { s.w.apply(step{kind: "fopen", f: f}) }
+
+func (s sc) fopen(f int) {
+	if s.exists(f) {
+		s.w.apply(step{kind: "fopen", f: f})
+	}
+}
+
 func (s sc) reader(f int) *readerCtl {
 	for _, r := range s.w.readers {
 		if r.f == f && !r.busy {
 			return r
 		}
 	}
-	panic("scenario: no frozen reader")
+	return nil
 }
+
 func (s sc) fread(f, off, n int) {
-	s.w.apply(step{kind: "fread", f: f, off: off, n: n, rd: s.reader(f)})
+	if r := s.reader(f); r != nil {
+		s.w.apply(step{kind: "fread", f: f, off: off, n: n, rd: r})
+	}
 }
-func (s sc) fclose(f int) { s.w.apply(step{kind: "fclose", f: f, rd: s.reader(f)}) }
+
+func (s sc) fclose(f int) {
+	if r := s.reader(f); r != nil {
+		s.w.apply(step{kind: "fclose", f: f, rd: r})
+	}
+}
+
 func (s sc) release(o *opCtl) {
-	if o.gate() != "" {
+	if o != nil && !o.done.Load() && o.gate() != "" {
 		s.w.release(o)
 	}
 }
-func (s sc) delay()      { s.w.fireDelay() }
-func (s sc) fault(f int) { s.w.injectReadFault(f) }
+
+func (s sc) delay() {
+	if !s.w.delayFired {
+		s.w.fireDelay()
+	}
+}
+
+func (s sc) fault(f int) {
+	if s.exists(f) && s.w.files[f].pf != nil {
+		s.w.injectReadFault(f)
+	}
+}
 
 type scenario struct {
 	name   string
@@ -610,8 +682,8 @@ func TestScenarios(t *testing.T) {
 		if only != "" && only != scn.name {
 			continue
 		}
-		for a := 0; a < 2; a++ {
-			runTrace(t, tr, n, allocName(a), scn.nfiles, func(w *world) { scn.body(sc{w}) })
+		for a := 0; a < 4; a++ {
+			runTrace(t, tr, n, allocName(a), a >= 2, scn.nfiles, func(w *world) { scn.body(sc{w}) })
 			n++
 		}
 	}
@@ -627,8 +699,8 @@ func TestDeadDataOps(t *testing.T) {
 	defer tr.Close()
 	n := 0
 	for _, kind := range []string{"setsize", "allocate"} {
-		for a := 0; a < 2; a++ {
-			runTrace(t, tr, n, allocName(a), 1, func(w *world) {
+		for _, a := range []int{0, 3} { // fuse + leaf, nfs + build directory
+			runTrace(t, tr, n, allocName(a), a >= 2, 1, func(w *world) {
 				s := sc{w}
 				s.create(0, "", 2)
 				u := s.upload(0, "ok", true)
